@@ -131,6 +131,13 @@ CHECKS["C19"] = dict(
     note="Url::parse acceptance of the verification URI is an oracle supplied with each case.")
 CHECKS["C14"]["text"] = CHECKS["C14"]["text"] + " Description/URI delivery, unknown-member skipping and the serialise/read-back round trip are theorems over the serde model; error documents are also decoded from JSON text and through non-200 replies on 7 request kinds."
 
+CHECKS["C17"] = dict(
+    text="PARTIAL. Proved on the poll model (programs over abstract effects with continuations): for every program, environment and assignment of pending counts to the inner futures, a bare poll loop returns exactly the blocking result and issues exactly the same effect sequence; "
+         "for several futures polled in any interleaving each one's state equals polling it alone. The model's contract (a resumed future continues with the same state) is Rust's async lowering, not proved. Send-ness is decided by 9 rustc probes. "
+         "Correspondence: every request/response/poll-loop case in 7 variants (blocking, bare executor with 0..3 injected Pending, tokio current-thread) against the extracted model and against each other; 2..4 requests in flight under exhaustive bounded and random interleavings.",
+    design_ref="5 C17, 7", technique="Coq proof (schedule independence and isolation on a poll-driven interpreter) + differential runs of real futures under injected Pending/interleavings + rustc Send probes",
+    note="Async lowering and trait resolution are Rust's; executors: a hand-written no-op-waker loop and tokio current-thread.")
+
 NOT_YET = {}
 
 
